@@ -186,6 +186,10 @@ class Wrapper(Elaboratable):
 def run_connect(case, rng, mon):
     P = {"kind": "connect", "cls": case["cls"]}
     del USED[:]
+    if rng.random() < 0.4:
+        warm = [wishbone.Signature(addr_width=4, data_width=32, granularity=8, features={"err", "stall"}),
+                csr.Signature(addr_width=4, data_width=8)]
+        mon.count("refused_calls_before_build", refused_calls(rng, warm))
     comp, ports = build_component(case["cls"], rng, P)
     conns = []
     ok = True
@@ -312,6 +316,31 @@ def expected_members(cls, params):
     return {"i": 1, "o": 1, "oe": 1}
 
 
+def refused_calls(rng, sigs):
+    """Calls that are refused part-way (bad create() arguments, bad constructor parameters): whatever they leave
+    behind must not affect the signatures built afterwards. Returns the number of refusals seen."""
+    n = 0
+    for sg in rng.sample(sigs, min(len(sigs), 6)):
+        for kw in ({"path": 0}, {"path": 5.5}, {"src_loc_at": "x"}, {"nonsense": 1}):
+            try:
+                sg.create(**kw)
+            except Exception:
+                n += 1
+    for build in (lambda: wishbone.Signature(addr_width=-1, data_width=8), lambda: wishbone.Signature(addr_width=4, data_width=12),
+                  lambda: wishbone.Signature(addr_width=4, data_width=32, granularity=64),
+                  lambda: wishbone.Signature(addr_width=4, data_width=32, features={"err", "foo"}),
+                  lambda: wishbone.Signature(addr_width=4, data_width=32, features=5),
+                  lambda: csr.Signature(addr_width=0, data_width=8), lambda: csr.Signature(addr_width="8", data_width=8),
+                  lambda: csr.Element.Signature(-1, "rw"), lambda: csr.Element.Signature(8, "wr"),
+                  lambda: csr.FieldPort.Signature("x", "rw"), lambda: csr.FieldPort.Signature(8, "rwx"),
+                  lambda: event.Source.Signature(trigger="both")):
+        try:
+            build()
+        except Exception:
+            n += 1
+    return n
+
+
 def use_signature(cls, p, sg, rng):
     if cls == "wishbone.Signature":
         aw, dw, g, feats = p
@@ -369,7 +398,8 @@ def run_sig(case, rng, mon):
     cls = case["cls"]
     g = grid(cls, rng)
     sigs = [(p, f()) for p, f in g]
-    twins = [(p, f()) for p, f in g]           # independently constructed, equal parameters
+    mon.count("refused_calls_before_twins", refused_calls(rng, [sg for _p, sg in sigs]))
+    twins = [(p, f()) for p, f in g]           # independently constructed, equal parameters (after some refused calls)
     mism = []
     used = 0
     for p, sg in rng.sample(sigs, min(len(sigs), 48)):
@@ -405,6 +435,11 @@ def run_sig(case, rng, mon):
         got = {name: Shape.cast(m.shape).width for name, m in s.members.items() if m.is_port}
         if got != expected_members(cls, p):
             mism.append(("members_follow_params", f"{cls}{p}: members {got}, expected {expected_members(cls, p)}"))
+        mon.counters["members_follow_params"] += 1
+        got_t = {name: Shape.cast(m.shape).width for name, m in t.members.items() if m.is_port}
+        if got_t != expected_members(cls, p):
+            mism.append(("members_follow_params", f"{cls}{p} (built after refused calls): members {got_t}, expected "
+                                                  f"{expected_members(cls, p)}"))
         # equal parameters, distinct objects
         mon.counters["eq_matches_params"] += 1
         if not (s == t) or (s != t):
